@@ -14,6 +14,7 @@ import (
 	"strings"
 	"sync"
 	"sync/atomic"
+	"syscall"
 	"time"
 
 	"github.com/kercylan98/vivid"
@@ -230,10 +231,21 @@ type fakePeer struct {
 	mu    sync.Mutex
 	ln    net.Listener
 	conns []net.Conn
+	// cutFirstAfter > 0: the first connection is reset after that many bytes of frame data have been read
+	// (the listener then has a tiny receive buffer, so that the sender's write cannot complete)
+	cutFirstAfter int
+	accepted      int
+	firstGot      int
 }
 
 func (p *fakePeer) up() error {
-	ln, err := net.Listen("tcp", p.addr)
+	lc := net.ListenConfig{}
+	if p.cutFirstAfter > 0 {
+		lc.Control = func(network, address string, rc syscall.RawConn) error {
+			return rc.Control(func(fd uintptr) { _ = syscall.SetsockoptInt(int(fd), syscall.SOL_SOCKET, syscall.SO_RCVBUF, 4096) })
+		}
+	}
+	ln, err := lc.Listen(context.Background(), "tcp", p.addr)
 	if err != nil {
 		return err
 	}
@@ -279,29 +291,129 @@ func (p *fakePeer) serve(conn net.Conn) {
 	if _, err := conn.Write(hs); err != nil {
 		return
 	}
+	p.mu.Lock()
+	p.accepted++
+	first := p.accepted == 1
+	p.mu.Unlock()
 	r := bufio.NewReader(conn)
+	if first && p.cutFirstAfter > 0 {
+		// the first small frame is read normally, then only part of the large one, then the connection is reset
+		p.readFrame(r)
+		n, _ := io.CopyN(io.Discard, r, int64(p.cutFirstAfter))
+		p.mu.Lock()
+		p.firstGot = int(n)
+		p.mu.Unlock()
+		if tc, ok := conn.(*net.TCPConn); ok {
+			_ = tc.SetLinger(0)
+		}
+		_ = conn.Close()
+		return
+	}
+	for p.readFrame(r) {
+	}
+}
+
+// readFrame reads and records one frame; false when the connection is finished.
+func (p *fakePeer) readFrame(r *bufio.Reader) bool {
 	for {
 		var lb [4]byte
 		if _, err := io.ReadFull(r, lb[:]); err != nil {
-			return
+			return false
 		}
 		n := binary.BigEndian.Uint32(lb[:])
 		if n == 0 || n > 8<<20 {
-			return
+			p.rec.ev(map[string]any{"e": "Recv", "src": "?", "dst": "?", "m": 0, "v": 0}) // not a frame boundary: garbage on the wire
+			return false
 		}
 		body := make([]byte, n)
 		if _, err := io.ReadFull(r, body); err != nil {
-			return
+			return false
 		}
 		_, _, sp, _, rp, msg, err := serialize.DecodeEnvelopWithRemoting(nil, body)
 		if err != nil {
 			p.rec.ev(map[string]any{"e": "Recv", "src": "?", "dst": "?", "m": 0, "v": 0})
-			continue
+			return true
 		}
 		if m, ok := msg.(*rmsg); ok {
 			p.rec.ev(map[string]any{"e": "Recv", "src": sp, "dst": rp, "m": int(m.ID), "v": b2i(m.intact())})
 		}
+		return true
 	}
+}
+
+// runCutInsideFrame: the peer resets the connection after it has read only part of a large frame; the sender's
+// write fails half-way, it reconnects and must send the whole frame again (or report a dead letter).
+// conclusive is false when the sender's write was not reported as failed (the kernel took the whole frame).
+func runCutInsideFrame(seed int64, size int) (ev []map[string]any, conclusive bool, err error) {
+	ensureRmsg()
+	rng := rand.New(rand.NewSource(seed))
+	rec := &recvRecorder{}
+	a, _, err := startRemotingSystemWith(vivid.WithActorSystemRemotingReconnectLimit(3))
+	if err != nil {
+		return nil, false, err
+	}
+	defer func() { go a.Stop(2 * time.Second) }()
+	peer := &fakePeer{addr: fmt.Sprintf("127.0.0.1:%d", freePort()), rec: rec, cutFirstAfter: 50000 + rng.Intn(150000)}
+	if err := peer.up(); err != nil {
+		return nil, false, err
+	}
+	defer peer.down()
+	var sendFailed atomic.Int64
+	if _, err := a.ActorOf(vivid.ActorFN(func(ctx vivid.ActorContext) {
+		switch m := ctx.Message().(type) {
+		case *vivid.OnLaunch:
+			ctx.EventStream().Subscribe(ctx, ves.DeathLetterEvent{})
+			ctx.EventStream().Subscribe(ctx, ves.RemotingMessageSendFailedEvent{})
+		case ves.RemotingMessageSendFailedEvent:
+			sendFailed.Add(1)
+		case ves.DeathLetterEvent:
+			if r, ok := m.Envelope.Message().(*rmsg); ok {
+				rec.ev(map[string]any{"e": "DLocal", "m": int(r.ID)})
+			}
+		}
+	}), vivid.WithActorName("dl-observer")); err != nil {
+		return nil, false, err
+	}
+	toB, _ := a.CreateRef(peer.addr, "/recvB")
+	started := make(chan vivid.ActorContext, 1)
+	if _, err := a.ActorOf(vivid.ActorFN(func(ctx vivid.ActorContext) {
+		if _, ok := ctx.Message().(*vivid.OnLaunch); ok {
+			started <- ctx
+		}
+	}), vivid.WithActorName("snd")); err != nil {
+		return nil, false, err
+	}
+	sctx := <-started
+	done := make(chan struct{})
+	go func() {
+		defer close(done)
+		for id, sz := range []int{64, size, 80, 96} {
+			rec.ev(map[string]any{"e": "Sent", "src": "/snd", "dst": "/recvB", "m": id + 1, "k": "tell"})
+			sctx.Tell(toB, newRmsg(uint32(id+1), "tell", sz, rng))
+		}
+	}()
+	select {
+	case <-done:
+	case <-time.After(20 * time.Second):
+		return nil, false, fmt.Errorf("the four Tell calls did not return within 20 s")
+	}
+	// everything that will arrive arrives shortly after the last Tell returned
+	waitFor(3*time.Second, func() bool {
+		rec.mu.Lock()
+		defer rec.mu.Unlock()
+		n := 0
+		for _, e := range rec.events {
+			if e["e"] == "Recv" || e["e"] == "DLocal" {
+				n++
+			}
+		}
+		return n >= 4
+	})
+	time.Sleep(300 * time.Millisecond)
+	rec.ev(map[string]any{"e": "End", "k": "faulty-strict"})
+	rec.mu.Lock()
+	defer rec.mu.Unlock()
+	return append([]map[string]any{}, rec.events...), sendFailed.Load() > 0, nil
 }
 
 // runPeerRestart: the peer process goes away (its sockets are closed) and comes back on the same address.
@@ -513,6 +625,17 @@ func checkC14(c *core.Ctx) {
 		ev, _, err := runUnreachable(3, limit, c.Seed+int64(i))
 		add(fmt.Sprintf("unreachable-limit%d#%d", limit, i), "tell_unreachable_peer", map[string]any{"messages": 3, "reconnect_limit": limit}, ev, err)
 	}
+	inconclusive := 0
+	for i := 0; i < core.Pick(c, 2, 6); i++ {
+		size := []int{3500000, 2000000, 3900000}[i%3]
+		ev, conclusive, err := runCutInsideFrame(c.Seed+int64(i), size)
+		if err == nil && !conclusive {
+			inconclusive++ // the kernel accepted the whole frame before the reset: a tolerated loss, nothing to judge
+			continue
+		}
+		add(fmt.Sprintf("cut-inside-frame#%d", i), "cut_inside_large_frame", map[string]any{"seed": c.Seed + int64(i), "frame_bytes": size}, ev, err)
+	}
+	c.Set("cut_inside_frame_runs_inconclusive", inconclusive)
 	for i := 0; i < core.Pick(c, 2, 10); i++ {
 		ev, err := runPeerRestart(c.Seed + int64(i))
 		add(fmt.Sprintf("peer-restart#%d", i), "peer_restart", map[string]any{"seed": c.Seed + int64(i)}, ev, err)
